@@ -282,6 +282,37 @@ def ob_nesting(op, kind):
     return held("relative error (3,3): %.1e -> (6,6): %.1e" % tuple(errs))
 
 
+def ob_bary_nesting(kind):
+    """bounded (exact integrand): the barycentric representation of a space is the same space written on the barycentric refinement, so the mass matrix assembled
+    with the representations (P_test' M_fine P_trial, through their dof transformations) equals the mass matrix of the original spaces - on a grid with scalene
+    triangles, where the edge-wise tables of the representation are not symmetric."""
+    import bempp_cl.api as api
+    from bempp_cl.api.operators.boundary import sparse
+
+    warnings.simplefilter("ignore")
+    grid = Z.grid_with_domains("octa")
+    par = Z.params(4, 4)
+    dom, dual = {"RWG": (("RWG", 0), ("SNC", 0)), "P1": (("P", 1), ("P", 1)), "DP0": (("DP", 0), ("DP", 0))}[kind]
+    worst = 0.0
+    for kw in ({}, {"segments": [1, 2]}):
+        a = api.function_space(grid, dom[0], dom[1], **(dict(kw, include_boundary_dofs=True) if dom[0] != "DP" else kw))
+        b = api.function_space(grid, dual[0], dual[1], **(dict(kw, include_boundary_dofs=True) if dual[0] != "DP" else kw))
+        Mc = Z.dense(sparse.identity(a, a, b, parameters=par))
+        Mb = Z.dense(sparse.identity(a.barycentric_representation(), a.barycentric_representation(), b.barycentric_representation(), parameters=par))
+        err = float(np.abs(Mb - Mc).max() / np.abs(Mc).max()) if Mb.shape == Mc.shape else float("inf")
+        worst = max(worst, err)
+        if not err < 1e-12:
+            return violated("mass matrix of the barycentric representations of %s x %s %s differs from the mass matrix of the original spaces by %.2e" % (dom[0], dual[0], kw, err),
+                            witness={"kind": kind, "options": kw}, signature="bary-nesting/%s" % kind,
+                            replay={"callable": "checks.c04:replay_bary_nesting", "kwargs": {"kind": kind}, "confirmed": True})
+    return held("whole grid and segments, worst %.1e" % worst)
+
+
+def replay_bary_nesting(kind):
+    r = ob_bary_nesting(kind)
+    return {"violates": r["status"] == "violated", "detail": r["detail"]}
+
+
 def replay_nesting(op, kind):
     r = ob_nesting(op, kind)
     return {"violates": r["status"] == "violated", "detail": r["detail"]}
@@ -334,14 +365,16 @@ def main():
                 run.add("pipeline.T'AT.contact%d[%s %s%d on [%d] x %s%d on [%d]]" % (ncommon, mesh, tsp[0], tsp[1], a, rsp[0], rsp[1], b), "post",
                         PL.ob_pipeline, mesh, tsp, rsp, di[mesh])
     run.add("nesting.laplace_single.DP0", "bounded", ob_nesting, "laplace_single", "DP0")
-    run.add("nesting.laplace_double.DP0", "bounded", ob_nesting, "laplace_double", "DP0")      # normal-dependent: sees the orientation of the refined elements
+    run.add("nesting.laplace_double.DP0", "bounded", ob_nesting, "laplace_double", "DP0")
+    for kind in ("RWG", "P1", "DP0"):
+        run.add("nesting.barycentric.mass[%s]" % kind, "bounded", ob_bary_nesting, kind)      # normal-dependent: sees the orientation of the refined elements
     if thorough:
         run.add("nesting.laplace_single.P1", "bounded", ob_nesting, "laplace_single", "P1")
         run.add("nesting.laplace_hyp.P1", "bounded", ob_nesting, "laplace_hyp", "P1")
     run.bound("pipeline T'AT contract: 2x2 screen (thorough: + octahedron) with 3 domain indices, generic values")
     run.bound("float T'AT: zoo grids x 13 operator/space-kind cases x option combinations (quick: one trial option per test option; thorough: all pairs)")
     run.bound("contact classes: test and trial functions on single elements (and an element pair) of the octahedron / 2x2 screen, all element pairs in thorough")
-    run.bound("nesting: tetrahedron refined once, orders (3,3) and (6,6); barycentric refinement nesting is not exercised")
+    run.bound("nesting: tetrahedron refined once, orders (3,3) and (6,6); barycentric refinement: mass matrices only (octahedron with scalene faces; the pointwise representation contract is C10)")
     run.assume("accumulation order differs between spaces: equality is 'to rounding' (1e-11 relative in the float check, exact in the symbolic one)")
     run.assume("scipy coo_matrix/tocsr build the matrix from the (row, col, value) triples with duplicate summation")
     return run.finish()
